@@ -508,7 +508,7 @@ matrix, cell `(r, c)` being whatever `cellWire` makes of `m.cell r c` -/
 theorem doColor_matrixLight (s : State) (l : Light) (h w : Nat) (m : Matrix)
     (F : Nat → Nat → List Int) (d : Int)
     (hop : s.regs .operand = .operand .matrixLight) (hl : s.light? (s.regs .name) = some l)
-    (hk : l.kind = .matrix h w) (hm : s.matrix = some m)
+    (hk : l.kind = .matrix h w) (hm : s.matrix = some m) (hmh : m.height = h) (hmw : m.width = w)
     (hcells : ∀ r c, r < h → c < w → cellWire s (m.cell r c) = some (F r c))
     (hdur : (s.asRawTime (s.regs .duration)).bind wire32 = some d) :
     s.doColor = s.emit (.setTile l.name (tile h w F) d w h) := by
@@ -530,7 +530,7 @@ theorem doColor_matrixLight (s : State) (l : Light) (h w : Nat) (m : Matrix)
         (s.asRawTime (s.regs .duration)).bind wire32 with
       | some cs, some d => s.emit (.setTile l.name cs d w h)
       | _, _ => s.fault "matrix conversion" := by
-    simp only [State.doColor, hop, hl, hk, hm]
+    simp only [State.doColor, hop, hl, hk, hm, hmh, hmw]
     rfl
   rw [key, hmap, hdur]
 
@@ -573,13 +573,16 @@ theorem black_isColor : IsColor [.int 0, .int 0, .int 0, .int 0] :=
 
 /-- **C15_matrix_once.**  On a matrix light of any height and width, with the matrix register
 holding any list of stages whose colours (and the saved default, if any) are numbers, the
-final `COLOR` of a `set … begin … end` (or of the one-line form) sends exactly one message: a
+final `COLOR` of a `set … begin … end` (or of the one-line form) sends exactly one message (the
+matrix register holding the matrix of THIS light, `m.height = h`, `m.width = w` — as it does unless
+a command inside the block changed the NAME register to another matrix light, in which case the
+machine sends that light the cells of the matrix the block was opened on): a
 `setTile` with `h * w` cells; cell `(r, c)` is at index `r * w + c` and carries the colour of
 the last stage containing it converted as `cellWire` says, and the default (black if none was
 saved) where no stage reaches. -/
 theorem C15_matrix_once (s : State) (l : Light) (h w : Nat) (m : Matrix) (q : Rat)
     (hop : s.regs .operand = .operand .matrixLight) (hl : s.light? (s.regs .name) = some l)
-    (hk : l.kind = .matrix h w) (hm : s.matrix = some m)
+    (hk : l.kind = .matrix h w) (hm : s.matrix = some m) (hmh : m.height = h) (hmw : m.width = w)
     (hstages : ∀ st ∈ m.stages, IsColor st.color)
     (hdef : ∀ dc, s.defaultColor = some dc → IsColor dc)
     (hdur : numOf (s.regs .duration) = some q) :
@@ -619,7 +622,7 @@ theorem C15_matrix_once (s : State) (l : Light) (h w : Nat) (m : Matrix) (q : Ra
     intro r c
     obtain ⟨wc, hwc⟩ := hall r c
     simp [F, hwc]
-  refine ⟨tile h w F, d, doColor_matrixLight s l h w m F d hop hl hk hm (fun r c _ _ => hF r c) hd,
+  refine ⟨tile h w F, d, doColor_matrixLight s l h w m F d hop hl hk hm hmh hmw (fun r c _ _ => hF r c) hd,
     tile_length h w F, ?_⟩
   intro r c hr hc
   refine ⟨F r c, tile_getElem? h w F r c hr hc, hF r c, ?_, ?_⟩
@@ -783,7 +786,7 @@ example : state.doColor = state.emit (.setTile "M"
     [[0, 65535, 32768, 3500], [0, 65535, 32768, 3500],
      [0, 65535, 32768, 3500], [43690, 65535, 16711, 3500],
      [0, 0, 0, 0], [43690, 65535, 16711, 3500]] 0 2 3) :=
-  doColor_matrixLight state light 3 2 ⟨3, 2, stages⟩ wire 0 rfl rfl rfl rfl
+  doColor_matrixLight state light 3 2 ⟨3, 2, stages⟩ wire 0 rfl rfl rfl rfl rfl rfl
     (by
       intro r c hr hc
       have hr' : r = 0 ∨ r = 1 ∨ r = 2 := by omega
@@ -793,7 +796,7 @@ example : state.doColor = state.emit (.setTile "M"
 
 example : ∃ cells d, state.doColor = state.emit (.setTile "M" cells d 2 3) ∧
     cells.length = 3 * 2 := by
-  obtain ⟨cells, d, h1, h2, _⟩ := C15_matrix_once state light 3 2 ⟨3, 2, stages⟩ 0 rfl rfl rfl rfl
+  obtain ⟨cells, d, h1, h2, _⟩ := C15_matrix_once state light 3 2 ⟨3, 2, stages⟩ 0 rfl rfl rfl rfl rfl rfl
     (by
       intro st hs
       simp only [stages, List.mem_cons, List.not_mem_nil, or_false] at hs
